@@ -7,6 +7,7 @@ translator model `Gen` produces them; the text tie of C01 checks on every run th
 translator emits the same shapes), for ALL condition lists / element lists / states.
 -/
 import FaxVerif.Gen.FirstCorrect
+import FaxVerif.Gen.FirstFault
 import FaxVerif.C04.Shapes
 namespace FaxVerif.C04
 open FaxVerif.Cpp FaxVerif.Linq FaxVerif.Gen
@@ -191,5 +192,32 @@ example (C : Ctx D) (s : St D) (hr : (s.env "r").isSome = true) :
 example : countShapesL none (orShape "r" [] (.bool true) (thenSet [] "r" (.bool false))) = ⟨0, 1, 0⟩ := by decide
 example : countShapesL none (andShape "r" [] (.bool true) [.ite (.var "f") [.set "f" (.bool false), .set "r" (.var "x")] []]) = ⟨1, 0, 0⟩ := by decide
 example : countShapesL none (iteShape [] (.var "c") (thenSet [] "r" (.int 1)) (thenSet [] "r" (.int 2))) = ⟨0, 0, 1⟩ := by decide
+
+end FaxVerif.C04
+
+namespace FaxVerif.C04
+open FaxVerif.Cpp FaxVerif.Linq FaxVerif.Gen
+variable {D : Type}
+
+/-- **C04.event_first_empty_loud** — END TO END, fault direction, for the translator model on
+event-level rows `{…pre…, name: chain.First(), …post…}`: on an event where the columns before it
+are defined and the chain keeps no element, the query is undefined (loud fault) and the whole
+emitted package — declarations, the loops of the earlier columns, the `First()` idiom — fails
+loudly, from any admissible class state; nothing after the failing column runs and no row is
+written. For every backend satisfying `BackendOK`, all column lists, chains, events, number
+models. (The success direction is `C01.eventRows_correct_partial`.) -/
+theorem event_first_empty_loud (B : Backend) (hB : BackendOK B) (nm cn : Nat → String)
+    (hinj : ∀ i j, nm i = nm j → i = j) (hcinj : ∀ i j, cn i = cn j → i = j)
+    (hres : ∀ j, nm j ≠ "result") (hcres : ∀ k, cn k ≠ "result") (hdisj : ∀ j k, nm j ≠ cn k)
+    (QC : QCtx D) (hcollT : ∀ name, B.collType name = QC.collType name)
+    (pre : List (String × Col)) (name : String) (c : Chain) (post : List (String × Col))
+    (hhyp : ∀ p ∈ pre, ColHyp QC p.2) (hc : ColHyp QC (.first c))
+    (σc : Env D) (hσ : ColsPre cn ((pre ++ (name, .first c) :: post).map (·.2)) 0 σc)
+    (vs : List (Val D))
+    (hpre : denotes QC [("e", evtVal)] ((pre.map (·.2)).map (colQ "e")) = .ok vs)
+    (hempty : denote QC [("e", evtVal)] (chainQ "e" c) = .ok (.vec [])) :
+    runEvent (compile B nm cn (.eventRows (pre ++ (name, .first c) :: post))) QC.N σc QC.ev = .error (.loud firstMsg) ∧
+    ∃ m, denote QC [("e", evtVal)] (colQ "e" (.first c)) = .error (.loud m) :=
+  eventRows_first_empty_loud B hB nm cn hinj hcinj hres hcres hdisj QC hcollT pre name c post hhyp hc σc hσ vs hpre hempty
 
 end FaxVerif.C04
